@@ -455,6 +455,18 @@ fn run_one(ls: &mut Linters, it: &Item, out: &mut Buf) {
         }
         show(start, 0);
         for b in &rec.batches {
+            {
+                let mut v = vec![];
+                conv(&b.before).all_ids(&mut v);
+                let mut seen = HashSet::new();
+                let dups: Vec<u32> = v.iter().filter(|i| !seen.insert(**i)).cloned().collect();
+                if !dups.is_empty() {
+                    eprintln!("DUP IDS before {} pass {}: {:?}", b.rule, b.pass, dups);
+                }
+            }
+            if std::env::var("SQV_SHOW").map(|v| v == b.rule).unwrap_or(false) {
+                show(&b.before, 0);
+            }
             eprintln!("BATCH {} pass {} accepted {}: {}", b.rule, b.pass, b.accepted, serde_json::to_string(&b.fixes.iter().map(fix_j).collect::<Vec<_>>()).unwrap());
         }
         eprintln!("FIXED: {:?}", fixed);
@@ -734,6 +746,14 @@ pub const CFG_PROBES: &[(&str, &str, &str)] = &[
     // stripped the line break after it and the comment swallowed the code
     ("ansi", "operator-trailing", "SELECT a\n   ||     to_varchar(date_part(hour, ts), 'xxxxxxxxxxxxxxxxxxxxxxxxxxxxxxxxxxxxxxxxxxxxxxxxxxxxxxxxxxxxx')  -- Concatenate labels and column values to output meaningful filenames.\nFROM t\n"),
     ("ansi", "operator-trailing", "SELECT a\n   ||     to_varchar(date_part(hour, ts), 'xxxxxxxxxxxxxxxxxxxxxxxxxxxxxxxxxxxxxxxxxxxxxxxxxxxxxxxxxxxxx')  -- Concatenate labels and column values to output meaningful filenames\nFROM t\n"),
+    // LT05 moves the trailing comment in front of the first `select` of the line (inside its
+    // select clause); LT10 then took the comment for the SELECT keyword and moved `as struct` before `select`
+    ("bigquery", "default", "select as struct '1' as bb, 2 as aa; select distinct as struct '1' as bb, 2 as aa; -- Example of explicitly building a struct in a select clause.\n"),
+    // LT08 inserted the same newline segment twice (duplicate id)
+    ("ansi", "default", "WITH a AS (SELECT 1) SELECT * FROM a\n"),
+    // doubled unary operator
+    ("ansi", "default", "SELECT 8 | ~ ~ ~4, - - 1, a - -1\n"),
+    ("sparksql", "maxlen40", "SELECT /*+ COALESCE(3) */ a, b, c FROM t; SELECT /*+ REPARTITION(3) */ a, b, c FROM t; -- multiple partitioning hints\nSELECT /*+ REBALANCE */ a, b, c FROM t;\n"),
     ("postgres", "default", "drop procedure delete_actor, update_actor CASCADE;\n"),
     ("postgres", "maxlen20-after", "drop procedure delete_actor,\nupdate_actor\nCASCADE;\n"),
     ("snowflake", "default", "CREATE OR REPLACE EXTERNAL FUNCTION f(a VARCHAR) RETURNS VARIANT API_INTEGRATION = x REQUEST_TRANSLATOR = db.s.fn RESPONSE_TRANSLATOR = db.s.fn2 AS 'https://x/y';\n"),
